@@ -89,6 +89,8 @@ var registry = []propertySpec{
 				Bounds: "chains of nesting depth 8..13 (thorough: and 99) with a symbolic leaf value"},
 			{Name: "VerifC01_FamilyRoles", Quick: tierSpec{Cases: 16}, Thorough: tierSpec{Cases: 16}, Sched: -1,
 				Bounds: "husband / wife nodes inside families and inside NOTE, _GRP, INDI and SOUR records that follow a family (directly, nested one level, and between two families), symbolic pointers and values"},
+			{Name: "VerifC01_NestedFamily", Quick: tierSpec{Cases: 4}, Thorough: tierSpec{Cases: 4}, Sched: -1,
+				Bounds: "a FAM node with HUSB / WIFE / CHIL lines nested at depth 1 or 3 below another record, with or without a root family before it; pointers, values and the BOM flag symbolic"},
 			{Name: "VerifC01_AllTags", Quick: tierSpec{Cases: 2 * 167}, Thorough: tierSpec{Cases: 2 * 167}, Sched: -1,
 				Bounds: "each of the 167 registered tags as root record and as child, symbolic value (0 or 2 bytes) and pointer (0 or 2 bytes)"},
 		},
